@@ -25,6 +25,7 @@ import (
 	"sync/atomic"
 
 	"github.com/elastos/Elastos.ELA/common"
+	"github.com/elastos/Elastos.ELA/common/config"
 	"github.com/elastos/Elastos.ELA/core/types"
 	common2 "github.com/elastos/Elastos.ELA/core/types/common"
 	"github.com/elastos/Elastos.ELA/core/types/payload"
@@ -41,6 +42,15 @@ type scenario struct {
 	alphabet []string
 	extra    []string // thorough tier only
 	depth    [2]int   // quick, thorough
+	// longReview: crkit.ParamsLongReview instead of crkit.Params
+	longReview bool
+}
+
+func (sc *scenario) params() *config.Configuration {
+	if sc.longReview {
+		return crkit.ParamsLongReview()
+	}
+	return crkit.Params()
 }
 
 var electAndFund = []string{"reg:c1+reg:c2+reg:c3", "fund", "e4", "vote:v1:a", "e", "approp"}
@@ -63,6 +73,29 @@ var scenarios = []*scenario{
 			"trk:A:terminated", "trk:A:progress+wd:A"},
 		extra: []string{"trk:A:rejected", "trk:A:common", "trk:B:progress", "trk:B:terminated", "wd:A:under", "wd:A+wd:B", "close:E:A:c1", "rev2:E:a"},
 		depth: [2]int{5, 7},
+	},
+	{
+		// proposal shapes in which "index in the budget list" and "stage number" differ: A has no
+		// imprest (stages 1, 2, 3), B lists its stages out of order (2, 0, 1); both voter-agreed.
+		name: "odd-shapes",
+		warm: append(append([]string{}, electAndFund...), "propni:A:c1+propoo:B:c2", "rev2:A:a+rev2:B:a", "e3"),
+		alphabet: []string{"e", "trk:A:progress", "trk:A:progress:2", "trk:B:progress", "wd:A", "wd:B", "trk:A:finalized",
+			"trk:B:finalized", "realwd"},
+		extra: []string{"trk:A:terminated", "trk:B:terminated", "trk:A:rejected:2", "wd:A+wd:B"},
+		depth: [2]int{4, 6},
+	},
+	{
+		// crossing a committee change with proposals in every withdrawal state (council review of
+		// 9 blocks): A and B voter-agreed at 21, B's imprest requested at 22, A's released and
+		// not collected, C registered at 19 and decided in the election block 28 (cancelled, or
+		// council-agreed with nothing released); candidates registered at 20 and voted at 26.
+		name:       "committee-change",
+		longReview: true,
+		warm: append(append([]string{}, electAndFund...), "prop:A:c1+prop:B:c2", "rev2:A:a+rev2:B:a", "e7", "prop:C:c1",
+			"reg:c1+reg:c2+reg:c3", "e", "wd:B", "e3", "vote:v1:a"),
+		alphabet: []string{"e", "rev2:C:a", "wd:A", "trk:A:progress", "trk:B:progress", "realwd", "approp", "prop:D:c2"},
+		extra:    []string{"e2", "trk:A:terminated", "trk:B:finalized", "imp:vi:c1:big", "wd:B"},
+		depth:    [2]int{4, 6},
 	},
 	{
 		// as above, then A's imprest requested and paid, stage 1 of A released by tracking.
@@ -88,6 +121,26 @@ type propRef struct {
 	requested common.Fixed64 // sum of the amounts of accepted withdrawal requests
 	paid      common.Fixed64 // sum of what real-withdraw transactions paid for those requests (gross)
 	released  bool           // the unapproved part of the budget went back to the committee
+	canceled  bool           // cancelled by the council / the voters or aborted: nothing is owed
+}
+
+// owed is what the committee still has to keep for the proposal: every stage not yet requested
+// of a running proposal; the released and not yet requested stages of a finished / terminated
+// one; nothing for a cancelled one.
+func (p *propRef) owed() (s common.Fixed64) {
+	if p.canceled {
+		return 0
+	}
+	for st, a := range p.budgets {
+		if p.withdrawn[st] {
+			continue
+		}
+		if p.released && !p.approved[st] {
+			continue
+		}
+		s += a
+	}
+	return
 }
 
 func (p *propRef) sumApproved() (s common.Fixed64) {
@@ -119,6 +172,8 @@ type inst struct {
 	bad   *mc.Fail // found while booking the block's transactions
 	dead  bool     // a clause was already violated in the warm-up
 	fresh bool     // the step being applied is a new transition of the search (not a replay)
+	// lastCommittee: LastCommitteeHeight seen after the previous block
+	lastCommittee uint32
 }
 
 var (
@@ -129,10 +184,13 @@ var (
 	statusSeen   evid.Distinct
 	withdrawals  int64
 	payouts      int64
+	// committee changes crossed by new transitions, and those with budget still owed
+	committeeChanges int64
+	changesWithOwed  int64
 )
 
 func newInst(sc *scenario) *inst {
-	in := &inst{sc: sc, w: crkit.NewWorld(crkit.Params()), props: map[string]*propRef{}, reqs: map[common.Uint256]string{},
+	in := &inst{sc: sc, w: crkit.NewWorld(sc.params()), props: map[string]*propRef{}, reqs: map[common.Uint256]string{},
 		reqA: map[common.Uint256]common.Fixed64{}, warm: true}
 	in.w.Skip = func(string) bool { return true }
 	for _, op := range sc.warm {
@@ -371,7 +429,8 @@ func (in *inst) judge(op string, b *types.Block) *mc.Fail {
 				in.release(p, ps.Status == crstate.Finished) // closed by a close-proposal, or by tracking (already released)
 			}
 		case crstate.CRCanceled, crstate.VoterCanceled, crstate.Aborted:
-			if !p.released {
+			if !p.canceled && !p.released {
+				p.canceled = true
 				p.released = true
 				in.used -= p.total
 			}
@@ -407,10 +466,14 @@ func (in *inst) judge(op string, b *types.Block) *mc.Fail {
 			return mc.Failf("C29|paid-exceeds-approved|via="+kind, "proposal %s: paid %s > approved %s", l, p.paid, p.sumApproved())
 		}
 		// implementation bookkeeping against the ledger
-		for st := range ps.WithdrawableBudgets {
+		for st, a := range ps.WithdrawableBudgets {
 			if !p.approved[st] {
 				return mc.Failf("C29|withdrawable-before-approval|via="+kind,
 					"proposal %s (status %s): stage %d is withdrawable but no accepted tracking / voter agreement released it", l, ps.Status, st)
+			}
+			if a != p.budgets[st] {
+				return mc.Failf("C29|withdrawable-amount-differs-from-budget|via="+kind,
+					"proposal %s: stage %d is withdrawable for %s, its approved budget is %s", l, st, a, p.budgets[st])
 			}
 		}
 		for st, a := range ps.WithdrawnBudgets {
@@ -450,7 +513,21 @@ func (in *inst) judge(op string, b *types.Block) *mc.Fail {
 		}
 		pend += info.Amount
 	}
-	// committee funds
+	// committee funds. When a new committee takes office the committed amount starts again from
+	// what is still owed to the proposals of earlier terms.
+	if c.LastCommitteeHeight != in.lastCommittee {
+		in.lastCommittee = c.LastCommitteeHeight
+		in.used = 0
+		for _, l := range labels {
+			in.used += in.props[l].owed()
+		}
+		if in.fresh {
+			atomic.AddInt64(&committeeChanges, 1)
+			if in.used > 0 {
+				atomic.AddInt64(&changesWithOwed, 1)
+			}
+		}
+	}
 	if c.CRCCommitteeUsedAmount > c.CRCCurrentStageAmount {
 		return mc.Failf("C29|committee-overcommitted|via="+kind,
 			"CRCCommitteeUsedAmount %s > CRCCurrentStageAmount %s", c.CRCCommitteeUsedAmount, c.CRCCurrentStageAmount)
@@ -458,9 +535,9 @@ func (in *inst) judge(op string, b *types.Block) *mc.Fail {
 	if c.CRCCommitteeUsedAmount < 0 {
 		return mc.Failf("C29|committee-used-negative|via="+kind, "CRCCommitteeUsedAmount %s", c.CRCCommitteeUsedAmount)
 	}
-	if c.LastCommitteeHeight == 8 && c.CRCCommitteeUsedAmount != in.used {
+	if c.CRCCommitteeUsedAmount != in.used {
 		return mc.Failf("C29|used-amount-differs-from-ledger|via="+kind,
-			"CRCCommitteeUsedAmount=%s, ledger (budgets committed minus budgets released)=%s", c.CRCCommitteeUsedAmount, in.used)
+			"CRCCommitteeUsedAmount=%s, ledger (owed to earlier proposals at the last committee change + budgets committed since - budgets released since)=%s", c.CRCCommitteeUsedAmount, in.used)
 	}
 	return nil
 }
@@ -478,7 +555,7 @@ func (in *inst) Digest() string {
 	sort.Strings(labels)
 	for _, l := range labels {
 		p := in.props[l]
-		fmt.Fprintf(&sb, "%s a%v w%v r%d p%d rel%v|", l, keys(p.approved), keys(p.withdrawn), p.requested, p.paid, p.released)
+		fmt.Fprintf(&sb, "%s a%v w%v r%d p%d rel%v c%v|", l, keys(p.approved), keys(p.withdrawn), p.requested, p.paid, p.released, p.canceled)
 	}
 	fmt.Fprintf(&sb, "u%d", in.used)
 	// the voters' outputs are part of what later operations can do
@@ -514,7 +591,7 @@ func main() {
 	}
 	// the warm-ups must be acceptable to the node
 	for _, sc := range scenarios {
-		w := crkit.NewWorld(crkit.Params())
+		w := crkit.NewWorld(sc.params())
 		for _, op := range sc.warm {
 			blocks, err := w.Offer(op)
 			if err != nil {
@@ -585,6 +662,8 @@ func main() {
 	cov["blocks_judged"] = atomic.LoadInt64(&blocksJudged)
 	cov["withdrawal_requests_accepted"] = atomic.LoadInt64(&withdrawals)
 	cov["payouts"] = atomic.LoadInt64(&payouts)
+	cov["committee_changes_crossed"] = atomic.LoadInt64(&committeeChanges)
+	cov["committee_changes_with_budget_still_owed"] = atomic.LoadInt64(&changesWithOwed)
 	cov["operations_accepted_by_kind"] = acceptedOps.Map()
 	cov["rejections_by_node_checks"] = rejected.Map()
 	cov["proposal_statuses_seen"] = statusSeen.Map()
